@@ -764,6 +764,58 @@ def run_one(xvc, sc, twin):
     return sc, w, tw, None
 
 
+def damaged_object_probe(chk, xvc):
+    """`bring --force` over a cache object with wrong bytes (disk damage): the outcome is the same with TMPDIR on the
+    repository's file system and on another one, and a forced bring that reports success leaves the stored bytes at
+    the cache address.  Oracle only (the model has no operation that damages an object)."""
+    res = {}
+    for tmp in (["same", "other"] if other_fs_available() else ["same"]):
+        rp = XvcRepo(xvc, prefix="c06dmg", git=False, init=False)
+        shm = None
+        try:
+            root = rp.root
+            os.makedirs(root, exist_ok=True)
+            st = os.path.join(rp.base, "st")
+            tdir = os.path.join(rp.base, "tmp"); os.makedirs(tdir)
+            if tmp == "other":
+                shm = tempfile.mkdtemp(prefix="xvc-verif-c06-", dir=SHM); tdir = shm
+            env = {"TMPDIR": tdir}
+            x = lambda *a: rp.xvc(*(["--skip-git"] + list(a)), cwd=root, env=env, timeout=120)
+            files = {"a.bin": b"\x00alpha-alpha-alpha\n" * 40, "d/b.txt": b"beta beta\n" * 30}
+            if x("init", "--no-git").failed:
+                continue
+            for p, b in files.items():
+                os.makedirs(os.path.dirname(os.path.join(root, p)) or root, exist_ok=True)
+                open(os.path.join(root, p), "wb").write(b)
+            if x("file", "track", *files).failed or x("storage", "new", "local", "--name", "L", "--path", st).failed or x("file", "send", "--to", "L").failed:
+                continue
+            objs = sorted(os.path.join(dp, fn) for dp, _, fns in os.walk(os.path.join(root, ".xvc", "b3")) for fn in fns)
+            if len(objs) != 2:
+                continue
+            before = {o: open(o, "rb").read() for o in objs}
+            victim = objs[0]
+            os.chmod(os.path.dirname(victim), 0o755); os.chmod(victim, 0o644)
+            open(victim, "wb").write(b"#" * len(before[victim]))
+            os.chmod(victim, 0o444); os.chmod(os.path.dirname(victim), 0o555)
+            r = x("file", "bring", "--force", "--from", "L")
+            after = {o: (open(o, "rb").read() if os.path.exists(o) else None) for o in objs}
+            ws = {p: (open(os.path.join(root, p), "rb").read() if os.path.exists(os.path.join(root, p)) else None) for p in files}
+            res[tmp] = {"failed": bool(r.failed), "objects_restored": [after[o] == before[o] for o in objs],
+                        "ws_intact": [ws[p] == files[p] for p in sorted(files)], "stderr": (r.err or "")[-200:]}
+            if not r.failed and after[victim] != before[victim]:
+                chk.fail("oracle", "`bring --force` reported success and left wrong bytes at a cache address (TMPDIR on %s file system)" % ("the repository's" if tmp == "same" else "another"),
+                         {"input": {"kind": "damaged-object-probe", "tmp": tmp}, "result": res[tmp]}, name="damaged")
+            chk.count(("damaged-object", tmp), True)
+        finally:
+            rp.cleanup()
+            if shm:
+                C.rm_rf(shm)
+    if len(res) == 2 and {k: v for k, v in res["same"].items() if k != "stderr"} != {k: v for k, v in res["other"].items() if k != "stderr"}:
+        chk.fail("oracle", "`bring --force` over a damaged cache object ends differently with TMPDIR on another file system: %r vs %r" % (res["same"], res["other"]),
+                 {"input": {"kind": "damaged-object-probe", "tmp": "both"}, "result": res}, name="damaged")
+    return res
+
+
 def strip_volatile(o):
     return json.loads(json.dumps(public_obs(o)))
 
@@ -811,6 +863,8 @@ def run(chk, replay=None):
     dist = {"scenarios": len(scs), "steps": 0, "kinds": {"L": 0, "G": 0}, "ops": {}, "tmp_other": 0, "faulty_commands": 0, "force": 0,
             "outcomes": {"Ok": 0, "Err": 0, "Panic": 0}, "algos": {}, "second_repository": 0, "oracle_failures": {}, "oracle_failure_classes": {},
             "other_fs_available": other_ok, "model_compared_steps": 0, "brings_that_moved_objects": 0}
+    if replay is None or (replay.get("input") or {}).get("kind") == "damaged-object-probe":
+        dist["damaged_object_probe"] = damaged_object_probe(chk, xvc)
     # ---- oracle ------------------------------------------------------------------------------------------------
     pending, tasks = [], []
     for nm, sc, w, tw, crash in results:
